@@ -156,3 +156,26 @@ package logger
 //@   props C20
 //@   conforms type:field
 //@
+//@
+//@ // ---- C20: one write per event; the buffer goes back to the pool only after that write ---------------------------
+//@ func (pattern).write
+//@   props C20
+//@   requires b != nil && e != nil && e.Response != nil && len(shortMonthNames) == 13
+//@   requires forall i int :: 0 <= i && i < len(p) ==> p[i] != nil
+//@   assigns bufOf
+//@   ensures nopanic
+//@   // only the event's own buffer is written
+//@   ensures forall x *bytes.Buffer :: x != b ==> bufOf[x] == old(bufOf[x])
+//@   loop 1 invariant forall x *bytes.Buffer :: x != b ==> bufOf[x] == old(bufOf[x])
+//@
+//@ func (*logger).Log
+//@   props C20
+//@   requires l != nil && l.w != nil && e != nil && e.Response != nil && len(shortMonthNames) == 13
+//@   requires forall i int :: 0 <= i && i < len(l.p) ==> l.p[i] != nil
+//@   assigns bufOf, wr, ioWrites, lastWrite
+//@   ensures nopanic
+//@   // every event is handed to the writer as ONE write of the rendered line
+//@   ensures ioWrites == old(ioWrites) + 1
+//@   // the pooled buffer is given back only after that write has happened (nobody else can be filling it while
+//@   // the line is being written)
+//@   at "pool.Put(b)" assert ioWrites == old(ioWrites) + 1
